@@ -260,8 +260,10 @@ def run_oracles(spec, obs, c10_known):
     vio += [(k.replace(f"C11|{name}|", f"C11|{name}|feasible-"), d) for k, d in v1]
     v2, _, _, _ = campaign.cost_violations(spec, obs, "C11")
     vio += [(k.replace(f"C11|{name}|", f"C11|{name}|truthful-"), d) for k, d in v2]
-    v3, _, _ = campaign.best_violations(spec, obs, "C11")
-    vio += [(k.replace(f"C11|{name}|", f"C11|{name}|best-"), d) for k, d in v3]
+    if not any(a.cost != a.cost for a in obs.result.evolution[-1].agents):
+        # (as in C03) with an undefined (NaN) cost in the final generation "strictly better" is not defined
+        v3, _, _ = campaign.best_violations(spec, obs, "C11")
+        vio += [(k.replace(f"C11|{name}|", f"C11|{name}|best-"), d) for k, d in v3]
     for k, d in campaign.size_violations(spec, obs, "C10"):
         if k in c10_known:
             continue                      # the algorithm's own grouping loses agents in every mode (C10 finding)
@@ -321,7 +323,8 @@ def greedy_equivalence(spec):
 @st.composite
 def lazy_case(draw, optimizer, tier):
     spec = draw(strategies.run_spec(
-        optimizer, task=strategies.task_spec(encodings=strategies.CONTINUOUS_ENCODINGS + ("mixed",), max_dim=5),
+        optimizer, task=strategies.task_spec(encodings=strategies.CONTINUOUS_ENCODINGS + ("mixed",), max_dim=5,
+                                             families=strategies.FAMILIES + ("barrier",)),
         config=strategies.config_spec(optimizer, max_cycles=(1, 4 if tier == "quick" else 8), perturb=0.1),
         modes=("thread",)))
     spec["workers"] = draw(st.integers(1, 16))
@@ -332,7 +335,8 @@ def lazy_case(draw, optimizer, tier):
 @st.composite
 def real_case(draw, optimizer, tier):
     spec = draw(strategies.run_spec(
-        optimizer, task=strategies.task_spec(encodings=strategies.CONTINUOUS_ENCODINGS, max_dim=4),
+        optimizer, task=strategies.task_spec(encodings=strategies.CONTINUOUS_ENCODINGS, max_dim=4,
+                                             families=strategies.FAMILIES + ("barrier",)),
         config=strategies.config_spec(optimizer, max_cycles=(1, 3), perturb=0.0, pop_mults=(1,), pop_offsets=(0,)),
         modes=("thread", "process", "process")))
     spec["workers"] = draw(st.integers(1, 16))
